@@ -234,6 +234,8 @@ class EnvRunner(core.Hooks):
                     t = env.now - 2.0 ** -40
             else:
                 t = env.now - d
+            if not t < env.now:
+                return          # at this clock the offset is below one ulp: not a time in the past
             before = (list(env._events), list(env._paused_events), env.now)
             try:
                 env.schedule_event(t, 1, Act(self, {'id': 'past', 's': []}), 5, 'past')
@@ -543,9 +545,9 @@ def gen_program(rng, pause_bias=0.0):
         pos = rng.randint(0, len(driver))
         driver[pos:pos] = pre + mid
     driver.append(['run', rng.choice((4, 8, 16))])
-    if rng.random() < 0.06:
+    if rng.random() < (0.12 if pause_bias else 0.06):
         # a late clock: one ulp is large, relative tolerances are wide
-        driver.insert(0, ['run', float(rng.choice((2 ** 20, 2 ** 30, 10 ** 6 + 0.5)))])
+        driver.insert(0, ['run', float(rng.choice((2 ** 20, 2 ** 30, 2 ** 30, 2 ** 40, 10 ** 6 + 0.5)))])
     case = {'engine': 'envsim', 'tiebreak': core.gen_tiebreak(rng), 'driver': driver}
     if rng.random() < 0.15:
         case['id_base'] = 100000      # asset ids that are not small cached integers
